@@ -31,6 +31,7 @@ func main() {
 		spec := fs.String("spec", "", "jpv-spec executable")
 		impl := fs.String("impl", "", "jpv-impl executable")
 		peg := fs.String("peg", "", "jpv-peg executable")
+		peggo := fs.String("peggo", "", "jpv-peggo executable (optional)")
 		replays := fs.String("replays", "replays", "replay directory")
 		out := fs.String("out", "", "summary JSON file")
 		workers := fs.Int("workers", 12, "worker processes")
@@ -46,7 +47,7 @@ func main() {
 			*n = p.Count(*tier) * *mult
 		}
 		self, _ := os.Executable()
-		sum := jph.RunParent(jph.RunOpts{Prop: *prop, Seed: *seed, Tier: *tier, N: *n, SpecExe: *spec, ImplExe: *impl, PegExe: *peg,
+		sum := jph.RunParent(jph.RunOpts{Prop: *prop, Seed: *seed, Tier: *tier, N: *n, SpecExe: *spec, ImplExe: *impl, PegExe: *peg, PegGoExe: *peggo,
 			ReplayDir: *replays, Self: self, Workers: *workers, From: *from})
 		bs, _ := json.MarshalIndent(sum, "", " ")
 		if *out != "" {
